@@ -137,6 +137,24 @@ pub struct CrashStorage {
     inner: FileStorage,
 }
 
+/// marks the call being executed as `p` (panicked, no effect) if the real call unwinds
+struct PanicMark;
+
+impl Drop for PanicMark {
+    fn drop(&mut self) {
+        if std::thread::panicking() {
+            CTL.with(|c| {
+                if let Ok(mut c) = c.try_borrow_mut()
+                    && c.recording
+                {
+                    c.trace.pop();
+                    c.trace.push('p');
+                }
+            });
+        }
+    }
+}
+
 impl StorageData for CrashStorage {
     fn backup(&self, name: &str) -> Result<(), DbError> {
         self.inner.backup(name)
@@ -185,6 +203,7 @@ impl StorageData for CrashStorage {
         if CTL.with(|c| c.borrow_mut().before('z')) {
             return Err(injected());
         }
+        let _mark = PanicMark;
         self.inner.resize(new_len)
     }
 
@@ -192,6 +211,7 @@ impl StorageData for CrashStorage {
         if CTL.with(|c| c.borrow_mut().before(if bytes.is_empty() { 'o' } else { 'w' })) {
             return Err(injected());
         }
+        let _mark = PanicMark;
         self.inner.write(pos, bytes)
     }
 }
